@@ -282,7 +282,7 @@ func init() {
 			"(LD) on every feasible path of MatVecMul, MatMul, Outer and Inner each argument of the gemv/gemm/ger/dot call - transposition flags, dimensions, leading dimensions, buffers, operand order - is the one the operand's data order, lazy-transpose state and logical shape require under the row-major BLAS convention (term propagation along the path against a derived reference; 41 layout cases); (P2) the gateways and their callers do not write their operands (Dot and Outer do: known findings 13, 14). Not decided: the routines themselves (trusted by name), the reshape/permutation arithmetic of TensorMul/Contract, Dot's dispatch table beyond delegation, rounding.",
 		Run: func(rc *rules.RC) {
 			rules.O8(rc)
-			rules.RP(rc, nil, 3)
+			rules.RP(rc, nil, 0)
 			rules.LGuards(rc, "C09")
 			rules.LD(rc, 40)
 			rules.K3(rc, fileFilter("defaultengine_linalg.go", "dense_linalg.go"), 3, 12)
@@ -418,7 +418,7 @@ func init() {
 		Run: func(rc *rules.RC) {
 			rules.O8(rc)
 			rules.O9(rc, 20)
-			rules.RP(rc, nil, 3)
+			rules.RP(rc, nil, 0)
 			rules.WC(rc, 15)
 			rules.O6opt(rc)
 			rules.P4(rc)
@@ -438,7 +438,7 @@ func init() {
 		Run: func(rc *rules.RC) {
 			rules.O9(rc, 20)
 			rules.V2(rc, 2)
-			rules.RP(rc, nil, 3)
+			rules.RP(rc, nil, 0)
 			rules.WC(rc, 15)
 			rules.O6opt(rc)
 			oa := rules.O123(rc)
